@@ -6,8 +6,8 @@ registry! {
     c07_lww_assoc,       "C07", quick,    4, plain, 300 => c07::lww_associative();
     c08_twin,            "C08", quick,    4, plain, 120 => c08::twin();
     c08_reg_step,        "C08", quick,    4, plain, 120 => c08::reg_write_after_observe(); // all stamps < 2^62, 1-byte values
-    c08_state_write,     "C08", quick,    6, plain, 600 => c08::state_step(0); // one key, LWW values, arbitrary I-state + arbitrary remote delta, then record_write
-    c08_state_delete,    "C08", quick,    6, plain, 600 => c08::state_step(1); // same, then record_delete
+    c08_state_write,     "C08", thorough,    6, plain, 600 => c08::state_step(0); // one key, LWW values, arbitrary I-state + arbitrary remote delta, then record_write
+    c08_state_delete,    "C08", thorough,    6, plain, 600 => c08::state_step(1); // same, then record_delete
     c10_twin,            "C10", quick,    8, plain, 120 => c10::twin();
     c10_decode_total_0,  "C10", quick,    20, plain, 120 => c10::decode_total(0); // payload length 0, all other bytes symbolic
     c10_decode_total_1,  "C10", quick,    20, plain, 120 => c10::decode_total(1);
@@ -17,8 +17,8 @@ registry! {
     c10_roundtrip_4,     "C10", thorough, 8, plain, 600 => c10::roundtrip(4);
     c10_truncation_2,    "C10", quick,    8, plain, 300 => c10::truncation(2);
     c10_bitflip_stamp_2, "C10", quick,    8, plain, 600 => c10::bitflip(2, 1);
-    c10_bitflip_crc_2,   "C10", quick,    8, plain, 600 => c10::bitflip(2, 2);
-    c10_bitflip_data_2,  "C10", quick,    8, plain, 600 => c10::bitflip(2, 3);
+    c10_bitflip_crc_2,   "C10", thorough,    8, plain, 600 => c10::bitflip(2, 2);
+    c10_bitflip_data_2,  "C10", thorough,    8, plain, 600 => c10::bitflip(2, 3);
     c10_bitflip_len_2,   "C10", quick,    8, plain, 600 => c10::bitflip(2, 0);
     c15_twin, "C15", quick, 12, alloc, 120 => c15::twin();
     c15_bulk_m2_t1, "C15", thorough, 12, alloc, 300 => c15::bulk(b"-2", None, 1); // '$' + length text "-2" + CRLF + 1 symbolic bytes; both decoders
@@ -93,10 +93,10 @@ registry! {
     c09_group_commit_3_nofault, "C09", thorough, 8, plain, 1800 => c09::group_commit(3, false); // 3 appends + sync, symbolic threshold, no faults
     c06_twin, "C06", quick, 6, plain, 300 => c06::twin();
     c06_pair_set_set_pre0, "C06", quick, 6, plain, 1500 => c06::pair(0, 0, 0); // A: SET, B: SET on one key, pre-state absent; symbolic clocks and bytes; deltas cross-delivered once
-    c06_pair_set_set_pre1, "C06", quick, 6, plain, 1500 => c06::pair(0, 0, 1); // A: SET, B: SET on one key, pre-state common LWW value; symbolic clocks and bytes; deltas cross-delivered once
+    c06_pair_set_set_pre1, "C06", thorough, 6, plain, 1500 => c06::pair(0, 0, 1); // A: SET, B: SET on one key, pre-state common LWW value; symbolic clocks and bytes; deltas cross-delivered once
     c06_pair_set_set_pre2, "C06", thorough, 6, plain, 1500 => c06::pair(0, 0, 2); // A: SET, B: SET on one key, pre-state common hash {f}; symbolic clocks and bytes; deltas cross-delivered once
     c06_pair_set_del_pre0, "C06", thorough, 6, plain, 1500 => c06::pair(0, 1, 0); // A: SET, B: DEL on one key, pre-state absent; symbolic clocks and bytes; deltas cross-delivered once
-    c06_pair_set_del_pre1, "C06", quick, 6, plain, 1500 => c06::pair(0, 1, 1); // A: SET, B: DEL on one key, pre-state common LWW value; symbolic clocks and bytes; deltas cross-delivered once
+    c06_pair_set_del_pre1, "C06", thorough, 6, plain, 1500 => c06::pair(0, 1, 1); // A: SET, B: DEL on one key, pre-state common LWW value; symbolic clocks and bytes; deltas cross-delivered once
     c06_pair_set_del_pre2, "C06", thorough, 6, plain, 1500 => c06::pair(0, 1, 2); // A: SET, B: DEL on one key, pre-state common hash {f}; symbolic clocks and bytes; deltas cross-delivered once
     c06_pair_set_hset_pre0, "C06", thorough, 6, plain, 1500 => c06::pair(0, 2, 0); // A: SET, B: HSET on one key, pre-state absent; symbolic clocks and bytes; deltas cross-delivered once
     c06_pair_set_hset_pre1, "C06", thorough, 6, plain, 1500 => c06::pair(0, 2, 1); // A: SET, B: HSET on one key, pre-state common LWW value; symbolic clocks and bytes; deltas cross-delivered once
@@ -160,7 +160,7 @@ registry! {
     c18_twin, "C18", quick, 12, hasher, 120 => c18::twin();
     c18_bucket_order_2, "C18", quick, 12, hasher, 300 => c18::bucket_order(2); // 2 arbitrary key digests, both orders
     c18_bucket_order_3, "C18", quick, 12, hasher, 600 => c18::bucket_order(3); // 3 arbitrary key digests, all 6 orders
-    c18_state_order_d0, "C18", quick, 12, hasher, 900 => c18::state_insertion_order(0); // keys a,b with symbolic LWW values, two insertion orders, 1 bucket
+    c18_state_order_d0, "C18", thorough, 12, hasher, 900 => c18::state_insertion_order(0); // keys a,b with symbolic LWW values, two insertion orders, 1 bucket
     c18_state_order_d1, "C18", thorough, 12, hasher, 1500 => c18::state_insertion_order(1); // same, 2 buckets
     c18_sound_lww, "C18", quick, 52, hasher, 600 => c18::key_digest_sound(0); // two LWW values of one key with symbolic stamps/bytes/tombstones
     c18_sound_expiry, "C18", quick, 52, hasher, 600 => c18::key_digest_sound(1); // same LWW value, symbolic expiries
@@ -338,4 +338,37 @@ registry! {
     c16_diff_zadd, "C16", thorough, 10, plain, 900 => c16::diff(b"ZADD", &[A::S(1), A::D(2), A::S(1)]); // ZADD with 3 argument(s)
     c16_diff_getnil, "C16", thorough, 10, plain, 900 => c16::diff(b"GET", &[A::Nil]); // GET with 1 argument(s)
     c16_diff_expire_int, "C16", thorough, 10, plain, 900 => c16::diff(b"EXPIRE", &[A::S(1), A::Int]); // EXPIRE with 2 argument(s)
+    c07_gcounter_comm, "C07", thorough, 8, plain, 2400 => c07::gcounter_law(0); // 2 replicas, symbolic u32 counts and presence
+    c07_gcounter_idem, "C07", thorough, 8, plain, 2400 => c07::gcounter_law(1); // 2 replicas, symbolic u32 counts and presence
+    c07_gcounter_assoc, "C07", thorough, 8, plain, 2400 => c07::gcounter_law(2); // 2 replicas, symbolic u32 counts and presence
+    c07_pncounter_comm, "C07", thorough, 8, plain, 2400 => c07::pncounter_law(0); // 2 replicas, symbolic u32 increments, 1 decrement
+    c07_pncounter_idem, "C07", thorough, 8, plain, 2400 => c07::pncounter_law(1); // 2 replicas, symbolic u32 increments, 1 decrement
+    c07_pncounter_assoc, "C07", thorough, 8, plain, 2400 => c07::pncounter_law(2); // 2 replicas, symbolic u32 increments, 1 decrement
+    c07_gset_comm, "C07", thorough, 8, plain, 2400 => c07::gset_law(0); // elements subset of {a,b}
+    c07_gset_idem, "C07", thorough, 8, plain, 2400 => c07::gset_law(1); // elements subset of {a,b}
+    c07_gset_assoc, "C07", thorough, 8, plain, 2400 => c07::gset_law(2); // elements subset of {a,b}
+    c07_orset_comm, "C07", thorough, 8, plain, 2400 => c07::orset_law(0); // element a: optional add/remove/re-add per replica
+    c07_orset_idem, "C07", thorough, 8, plain, 2400 => c07::orset_law(1); // element a: optional add/remove/re-add per replica
+    c07_orset_assoc, "C07", thorough, 8, plain, 2400 => c07::orset_law(2); // element a: optional add/remove/re-add per replica
+    c07_vclock_comm, "C07", thorough, 8, plain, 2400 => c07::vclock_law(0); // 2 replicas, 0-2 increments each
+    c07_vclock_idem, "C07", thorough, 8, plain, 2400 => c07::vclock_law(1); // 2 replicas, 0-2 increments each
+    c07_vclock_assoc, "C07", thorough, 8, plain, 2400 => c07::vclock_law(2); // 2 replicas, 0-2 increments each
+    c07_hash_f_comm, "C07", thorough, 8, plain, 2400 => c07::hash_law(0, false); // hash over field f: symbolic register, stamps, expiry
+    c07_hash_fg_comm, "C07", thorough, 8, plain, 3000 => c07::hash_law(0, true); // hash over fields f,g
+    c07_hash_f_idem, "C07", thorough, 8, plain, 2400 => c07::hash_law(1, false); // hash over field f: symbolic register, stamps, expiry
+    c07_hash_fg_idem, "C07", thorough, 8, plain, 3000 => c07::hash_law(1, true); // hash over fields f,g
+    c07_hash_f_assoc, "C07", thorough, 8, plain, 2400 => c07::hash_law(2, false); // hash over field f: symbolic register, stamps, expiry
+    c07_hash_fg_assoc, "C07", thorough, 8, plain, 3000 => c07::hash_law(2, true); // hash over fields f,g
+    c07_mixed_comm, "C07", thorough, 8, plain, 2400 => c07::mixed_comm(); // LWW vs hash{f}: type-mismatch path
+    c07_mixed_assoc_hlh, "C07", thorough, 8, plain, 2400 => c07::mixed_assoc_hlh(); // (Hash,Lww,Hash), concrete payloads, symbolic distinct stamps
+    c11_twin, "C11", quick, 24, plain, 300 => c11::twin();
+    c11_wal_only_entry, "C11", quick, 8, plain, 600 => c11::wal_only_entry(); // 2 segments with symbolic maximum stamps, WAL-only entry with symbolic stamp
+    c11_entries_after, "C11", quick, 24, plain, 900 => c11::entries_after(); // WAL image of 2 entries, symbolic stamps and threshold
+    c11_damaged_file_isolated, "C11", thorough, 24, plain, 1800 => c11::damaged_file_isolated(); // 2 WAL files, one symbolic header byte of file 1 overwritten
+    c10_damaged_file_isolated, "C10", thorough, 24, plain, 1800 => c11::damaged_file_isolated(); // 2 WAL files, one symbolic header byte of file 1 overwritten
+    c10_truncation_keeps_newer, "C10", quick, 24, plain, 1200 => c11::truncation_keeps_newer(); // 2 closed WAL files, symbolic stamps and truncation threshold
+    c15_buffered_2_t4, "C15", quick, 12, alloc, 600 => c15::buffered_agrees(b"2", 4); // RespCodec::parse on a BytesMut vs the slice-level decoder, '$' + "2" + 4 symbolic bytes
+    c15_buffered_2_t3, "C15", thorough, 12, alloc, 600 => c15::buffered_agrees(b"2", 3); // RespCodec::parse on a BytesMut vs the slice-level decoder, '$' + "2" + 3 symbolic bytes
+    c15_buffered_0_t2, "C15", thorough, 12, alloc, 600 => c15::buffered_agrees(b"0", 2); // RespCodec::parse on a BytesMut vs the slice-level decoder, '$' + "0" + 2 symbolic bytes
+    c15_buffered_m1_t1, "C15", quick, 12, alloc, 600 => c15::buffered_agrees(b"-1", 1); // RespCodec::parse on a BytesMut vs the slice-level decoder, '$' + "-1" + 1 symbolic bytes
 }
